@@ -189,7 +189,7 @@ def p3(cx):
     n = 0
     for im in cx.observer_impls():
         tag = roles.impl_tag(cx, im)
-        shared = tag.startswith(('MutRc<', 'MutArc<')) or tag in ('ops::merge_all::InnerObserver', 'ops::merge_all::InnerObserverThreads', 'ops::merge_all::OutsideObserver',
+        shared = tag.startswith(('MutRc<', 'MutArc<')) or tag in ('subscriber::Subscriber', 'subscriber::SubscriberThreads','ops::merge_all::InnerObserver', 'ops::merge_all::InnerObserverThreads', 'ops::merge_all::OutsideObserver',
                                                                  'ops::merge_all::OutsideObserverThreads') or tag.startswith('subject::Subject') or tag.startswith('subject::MutRef')
         if not shared:
             continue
